@@ -1,5 +1,6 @@
 SPECIFICATION Spec
 CONSTANTS
+  Variant = "fixed"
   ClassName = "S1"
   MaxOps = 2
 CONSTRAINT MJudge
